@@ -23,7 +23,11 @@ import (
 	"encoding"
 	"fmt"
 	"math/big"
+	"os"
+	"sort"
 	"strings"
+	"sync"
+	"time"
 
 	"github.com/cloudflare/circl/internal/verifmc"
 	"github.com/cloudflare/circl/internal/verifref/prio"
@@ -72,12 +76,23 @@ func NumSeeds(seed int64) int { return len(verifmc.Seeds(1, seed)) }
 // Material derives verify key, nonce and sharding randomness of the report at
 // position pos of a batch from the seed alphabet entry seedIdx.
 func Material(randSize uint, seed int64, seedIdx, pos int) (vk prio3.VerifyKey, nonce prio3.Nonce, rnd []byte) {
-	copy(vk[:], verifmc.Seeds(32, seed)[seedIdx])
-	copy(nonce[:], verifmc.Seeds(16, seed)[seedIdx])
+	copy(vk[:], seeds(32, seed)[seedIdx])
+	copy(nonce[:], seeds(16, seed)[seedIdx])
 	nonce[15] ^= byte(pos)
-	rnd = append([]byte{}, verifmc.Seeds(int(randSize), seed)[seedIdx]...)
+	rnd = append([]byte{}, seeds(int(randSize), seed)[seedIdx]...)
 	rnd[0] ^= byte(pos)
 	return
+}
+
+var seedCache sync.Map // [2]int64{n, seed} -> [][]byte
+
+func seeds(n int, seed int64) [][]byte {
+	k := [2]int64{int64(n), seed}
+	if v, ok := seedCache.Load(k); ok {
+		return v.([][]byte)
+	}
+	v, _ := seedCache.LoadOrStore(k, verifmc.Seeds(n, seed))
+	return v.([][]byte)
 }
 
 // Stage names the protocol message an alteration applies to.
@@ -400,6 +415,7 @@ type AggPlan struct {
 	FullShares  []int // every batch up to MaxBatch over the domain
 	LightShares []int // every batch up to size 2 over {first, last} of the domain
 	MaxBatch    int
+	RTMaxBatch  int // batches up to this size are also run with every message passed through marshal/unmarshal
 	Seeds       int // how many entries of the seed alphabet
 	DomainLimit int
 }
@@ -407,7 +423,7 @@ type AggPlan struct {
 // UnitAgg: exact aggregates of all small batches.
 func (s *Sys[M, A, V, E]) UnitAgg(r *verifmc.Run, t interface{ Fatalf(string, ...interface{}) }, plan AggPlan) {
 	r.Rule("case = (instance, number of aggregators, seed-alphabet entry for verify key/nonces/sharding randomness, ordered batch of valid measurements, " +
-		"with or without marshal round trip of every protocol message); every batch of size 0..max_batch over the measurement domain " +
+		"without and (for batches up to max_batch_with_marshal_round_trip) with a marshal round trip of every protocol message); every batch of size 0..max_batch over the measurement domain " +
 		"(complete domain when it has <= domain_limit values, else the declared sub-alphabet with the extremes) is run through shard, " +
 		"prepare at every aggregator, aggregate, unshard on the real code and compared with the plain integer aggregate; non-trivial = each distinct case")
 	s.checkOrder(t, plan.Insts[0])
@@ -433,17 +449,23 @@ func (s *Sys[M, A, V, E]) UnitAgg(r *verifmc.Run, t interface{ Fatalf(string, ..
 			for _, sh := range plan.FullShares {
 				jobs = append(jobs, job{inst, sh, si, false})
 			}
-			if si < 2 {
-				for _, sh := range plan.LightShares {
-					jobs = append(jobs, job{inst, sh, si, true})
-				}
+		}
+		for _, sh := range plan.LightShares {
+			jobs = append(jobs, job{inst, sh, 3, true})
+			if sh <= 16 || r.Thorough() {
+				jobs = append(jobs, job{inst, sh, 1, true})
 			}
 		}
 	}
+	sort.SliceStable(jobs, func(a, b int) bool { // heavy jobs first: no long tail in ParallelFor
+		return (jobs[a].inst.MeasLen()+4)*jobs[a].shares > (jobs[b].inst.MeasLen()+4)*jobs[b].shares
+	})
 	r.Set("instances", doms)
 	r.Set("aggregators_full_batches", plan.FullShares)
 	r.Set("aggregators_batches_up_to_2_over_extremes", plan.LightShares)
 	r.Set("max_batch", plan.MaxBatch)
+	r.Set("max_batch_note", "quick tier: instances with MEAS_LEN > 32 use max_batch 2; more than 16 aggregators: batches up to size 1 (thorough: 2) over {first,last}")
+	r.Set("max_batch_with_marshal_round_trip", plan.RTMaxBatch)
 	r.Set("seed_alphabet", nSeeds)
 	r.Set("domain_limit", plan.DomainLimit)
 	verifmc.ParallelFor(len(jobs), func(ji int) {
@@ -457,17 +479,29 @@ func (s *Sys[M, A, V, E]) UnitAgg(r *verifmc.Run, t interface{ Fatalf(string, ..
 				fmt.Sprintf("%s: constructor refused admissible parameters: %v", tag(j.inst, j.shares), err), nil)
 			return
 		}
+		if os.Getenv("VERIF_C19_TIMING") != "" {
+			t0 := time.Now()
+			defer func() {
+				fmt.Fprintf(os.Stderr, "timing agg %s seed%d light=%v %.2fs\n", tag(j.inst, j.shares), j.seedIdx, j.light, time.Since(t0).Seconds())
+			}()
+		}
 		dom, _ := j.inst.Domain(plan.DomainLimit)
 		maxLen := plan.MaxBatch
 		if j.light {
 			maxLen = 2
+			if j.shares > 16 && !r.Thorough() {
+				maxLen = 1
+			}
 			if len(dom) > 2 {
 				dom = [][]uint64{dom[0], dom[len(dom)-1]}
 			}
+		} else if j.inst.MeasLen() > 32 && !r.Thorough() && maxLen > 2 {
+			maxLen = 2
 		}
 		Batches(dom, maxLen, func(batch [][]uint64) {
-			for _, rt := range []bool{false, true} {
-				s.CheckBatch(r, v, j.inst, j.seedIdx, batch, rt)
+			s.CheckBatch(r, v, j.inst, j.seedIdx, batch, false)
+			if len(batch) <= plan.RTMaxBatch {
+				s.CheckBatch(r, v, j.inst, j.seedIdx, batch, true)
 			}
 			if ji == 0 && len(batch) == 2 {
 				r.Sample(map[string]interface{}{"instance": j.inst.String(), "aggregators": j.shares, "batch": fmt.Sprint(batch), "aggregate": fmt.Sprint(j.inst.Aggregate(batch))})
@@ -528,9 +562,12 @@ func (s *Sys[M, A, V, E]) CheckCtor(r *verifmc.Run, inst prio.Inst, shares int) 
 				fmt.Sprintf("New(%s): refuses admissible parameters: %v", tag(inst, shares), err), payload)
 		default:
 			r.Count("admissible_rows_accepted", 1)
-			// the instance must be usable: aggregate {max, min} once
-			dom, _ := inst.Domain(8)
-			s.CheckBatch(r, v, inst, 3, [][]uint64{dom[len(dom)-1], dom[0]}, false)
+			// the instance must be usable: aggregate {max, min} once (skipped for many aggregators x long encodings: cost only)
+			if shares <= 3 || inst.MeasLen() <= 16 {
+				dom, _ := inst.Domain(8)
+				s.CheckBatch(r, v, inst, 3, [][]uint64{dom[len(dom)-1], dom[0]}, false)
+				r.Count("admissible_rows_used", 1)
+			}
 		}
 	default:
 		if outcome == "panic" {
@@ -989,6 +1026,40 @@ func (s *Sys[M, A, V, E]) CheckAlterations(r *verifmc.Run, v VDAF[M, A, V, E], i
 	for _, a := range altList(inst, &params, light) {
 		a := a
 		consumers := all
+		if a.Stage == StNonce && a.Agg < 0 && params.JointRandLength() == 0 {
+			// Without joint randomness nothing in a report depends on the nonce: the "altered" report IS the
+			// honest report for the other nonce, so no implementation can refuse it. What can be demanded
+			// (and is): the honest client's shares do not depend on the nonce, and the report is accepted
+			// under the new nonce with the same output shares.
+			caseID := base + "|" + a.Name
+			if !r.Want(caseID) {
+				continue
+			}
+			r.Eval(1)
+			r.Distinct(caseID)
+			var n2 prio3.Nonce
+			copy(n2[:], a.F(nonce[:]))
+			var res Result[V, E]
+			same := false
+			p, what := verifmc.Try(func() {
+				pub2, in2, err := v.Shard(s.ToM(meas), &n2, rnd)
+				if err != nil {
+					panic(err)
+				}
+				b1, _ := marshalShares(pub, in)
+				b2, _ := marshalShares(pub2, in2)
+				same = bytes.Equal(b1, b2)
+				res = Prepare(v, &vk, &n2, pub, in, nil, false)
+			})
+			if p || !same || !res.Accepted() || !bytes.Equal(outBytes(res.Out), baseline) {
+				r.Violation(key("nonce-independent-report-not-accepted", altGroup(a.Name)), caseID,
+					fmt.Sprintf("%s: report of %v under nonce alteration %s: shares identical=%v accepted=%v %s %s", tag(inst, shares), meas, a.Name, same, res.Accepted(), res.Where, what), nil)
+			} else {
+				r.Count("nonce_change_is_another_honest_report_accepted", 1)
+				r.Outcome("nonce@all(no joint randomness)->accepted: identical to the honest report under the new nonce")
+			}
+			continue
+		}
 		if a.Stage == StPrepMsg && a.Agg >= 0 {
 			consumers = func(i int) bool { return i == a.Agg }
 		}
@@ -999,6 +1070,13 @@ func (s *Sys[M, A, V, E]) CheckAlterations(r *verifmc.Run, v VDAF[M, A, V, E], i
 		for j := i + 1; j < shares; j++ {
 			i, j := i, j
 			name := fmt.Sprintf("input@swap:agg%d<->agg%d", i, j)
+			bi, _ := in[i].MarshalBinary()
+			bj, _ := in[j].MarshalBinary()
+			if bytes.Equal(bi, bj) {
+				// the structured all-00 / all-FF sharding randomness gives every helper the same seed: swapping changes nothing
+				r.Count("swap_of_identical_shares_skipped", 1)
+				continue
+			}
 			check(base+"|"+name, name, all, func() Result[V, E] {
 				sw := append([]prio3.InputShare[V, E]{}, in...)
 				sw[i], sw[j] = sw[j], sw[i]
@@ -1049,19 +1127,36 @@ func (s *Sys[M, A, V, E]) UnitInvalid(r *verifmc.Run, t interface{ Fatalf(string
 			r.NotExhaustive(fmt.Sprintf("%s: bit flips of 32-byte seeds restricted to every bit of the first and last byte and bit 0 of the other bytes", inst))
 		}
 		for _, sh := range plan.Shares {
-			for si := 0; si < nSeeds; si++ {
+			ns := nSeeds
+			if sh > 3 && ns > 2 {
+				ns = 2 // more than three aggregators: first two seed-alphabet entries only (cost)
+			}
+			light := isLight(inst)
+			if sh > 9 && !light {
+				light = true
+				r.NotExhaustive(fmt.Sprintf("%d aggregators: bit flips of 32-byte seeds restricted to every bit of the first and last byte and bit 0 of the other bytes", sh))
+			}
+			for si := 0; si < ns; si++ {
 				if small {
 					jobs = append(jobs, job{inst: inst, shares: sh, seedIdx: si, kind: 0})
 				}
-				for _, m := range [][]uint64{dom[0], dom[len(dom)-1]} {
-					jobs = append(jobs, job{inst: inst, shares: sh, seedIdx: si, kind: 1, meas: m, light: isLight(inst)})
+				bases := [][]uint64{dom[0], dom[len(dom)-1]}
+				if len(dom) == 1 {
+					bases = bases[:1]
+				}
+				for _, m := range bases {
+					jobs = append(jobs, job{inst: inst, shares: sh, seedIdx: si, kind: 1, meas: m, light: light})
 				}
 			}
 		}
 	}
+	sort.SliceStable(jobs, func(a, b int) bool {
+		return (jobs[a].inst.MeasLen()+4)*jobs[a].shares > (jobs[b].inst.MeasLen()+4)*jobs[b].shares
+	})
 	r.Set("instances", info)
 	r.Set("aggregators", plan.Shares)
 	r.Set("seed_alphabet", nSeeds)
+	r.Set("seed_alphabet_note", "more than three aggregators: the first two entries only")
 	r.Set("product_cap", plan.ProductCap)
 	verifmc.ParallelFor(len(jobs), func(ji int) {
 		j := jobs[ji]
